@@ -394,6 +394,34 @@ def correspond(ctx, scale):
                             same(o0[bi:bi + 1, ti:ti + 1], os_, 'outputs', key + ':single', f'{m["name"]} single vector vs in batch')
                         if is_ is not None:
                             same((i0[:, bi:bi + 1, ti:ti + 1] if grouped else i0[bi:bi + 1, ti:ti + 1]), is_, 'indices', key + ':single', f'{m["name"]} single vector vs in batch')
+                    # (3b) ON-CODE tokens (exact fixpoints: a first-layer code, a quantized output fed back, the zero vector) alone, batched only with
+                    # each other, and inside a batch of generic tokens: a shortcut keyed on a whole-call statistic ("the residual of the call is
+                    # exactly zero", "nothing left to quantize") is invisible to random tokens and makes the result depend on the company
+                    if lay == 'seq' and not grouped and rep < 4:
+                        specials = [torch.zeros(m['dim'])]
+                        first = getattr(mod, 'layers', [mod])[0]
+                        cbk = getattr(first, '_codebook', None)
+                        emb = getattr(cbk, 'embed', None)
+                        if emb is not None and emb.ndim == 3 and emb.shape[-1] == m['dim'] and emb.shape[0] == 1:
+                            specials += [emb[0, k].detach().clone() for k in range(min(3, emb.shape[1]))]
+                        if o0 is not None and o0.shape[-1] == m['dim']:
+                            specials += [o0[0, 0].detach().clone(), o0[-1, -1].detach().clone()]
+                        sp = torch.stack(specials)[None]                     # 1 x s x d : on-code tokens only
+                        osp, isp = run(mod, m, sp, frozen)
+                        mix = torch.cat([sp, xs[:1]], dim=1)                 # the same tokens next to generic ones
+                        omx, imx = run(mod, m, mix, frozen)
+                        dist['on_code_tokens_vs_batch'] = dist.get('on_code_tokens_vs_batch', 0) + 1
+                        ns = sp.shape[1]
+                        if osp is not None:
+                            same(omx[:, :ns], osp, 'outputs', key + ':on-code', f'{m["name"]} on-code tokens alone vs next to generic tokens')
+                        if isp is not None:
+                            same(imx[:, :ns], isp, 'indices', key + ':on-code', f'{m["name"]} on-code tokens alone vs next to generic tokens')
+                        for si in range(ns):
+                            o1s, i1s = run(mod, m, sp[:, si:si + 1], frozen)
+                            if o1s is not None:
+                                same(omx[:, si:si + 1], o1s, 'outputs', key + ':on-code-single', f'{m["name"]} one on-code token alone vs in batch')
+                            if i1s is not None:
+                                same(imx[:, si:si + 1], i1s, 'indices', key + ':on-code-single', f'{m["name"]} one on-code token alone vs in batch')
                     # (4) layout equivalence: the same per-vector results as the flattened channel-last sequence
                     if lay != 'seq' and 'seq' in m['layouts']:
                         ref = m['mk']('seq')
